@@ -151,7 +151,7 @@ def liveKeys (s : MState) (now : Int) : List Bytes :=
 def randomKey (s : MState) (now : Int) (choice : Option Bytes) : R :=
   let live := liveKeys s now
   match choice with
-  | none => (s, if live.isEmpty then .str [] else .str [63, 63])            -- "??": model expected some key
+  | none => (s, if live.isEmpty || live.contains [] then .str [] else .str [63, 63])   -- "" is also the empty-named key; "??" = a key was expected
   | some c => (s, if live.contains c then .str c else .str [63, 63])
 
 /-- TTL: a time.Duration in ns, rounded to whole seconds (half away from zero) -/
@@ -254,6 +254,15 @@ def persist (s : MState) (now : Int) (key : Bytes) : R :=
 def opSet (key : Bytes) (v : Bytes) (keep : Bool) (exp : Int := 0) : FeedOp :=
   { typ := 25, key := key, args := [Bytes.toHex v, toString keep, toString exp] }
 
+def setOpt (s : MState) (now : Int) (key : Bytes) (value : DsStr.S) (keepTTL : Bool) : R :=
+  let (s, _) := writeKey s now key (some .strNil)
+  match asStr s key with
+  | none => (s, .panic)
+  | some _ =>
+    let s := setVal s key (strVal value)
+    let s := if !keepTTL then setExp s key 0 else s
+    (emit (signal s key) (opSet key (DsStr.bytes value) keepTTL), .unit)
+
 def set (s : MState) (now : Int) (key value : Bytes) (keepTTL : Bool) : R :=
   let (s, _) := writeKey s now key (some .strNil)
   match asStr s key with
@@ -329,23 +338,47 @@ def addInt (s : MState) (now : Int) (key : Bytes) (delta : Int) (neg swallow : B
 
 def isIntText (b : Bytes) : Bool :=
   match b with
+  | 43 :: ds => !ds.isEmpty && ds.all isDigit && ds.length ≤ 15
   | 45 :: ds => !ds.isEmpty && ds.all isDigit && ds.length ≤ 15
   | ds => !ds.isEmpty && ds.all isDigit && ds.length ≤ 15
 
-/-- bytes that can occur in something strconv.ParseFloat accepts -/
-def floatish (b : UInt8) : Bool :=
-  isDigit b || [43, 45, 46, 95, 101, 69, 120, 88, 112, 80, 105, 73, 110, 78, 102, 70, 97, 65, 116, 84, 121, 89].contains b
-  || (97 ≤ b && b ≤ 102) || (65 ≤ b && b ≤ 70)
+/-- `strconv.readFloat` syntax for base 10 after the sign: digits/underscores with at most one '.',
+    at least one digit, optional exponent `e[sign]digits`, nothing left over -/
+def decimalFloatSyntax (body : Bytes) : Bool :=
+  let rec mant : Bytes → Bool → Bool → Bytes × Bool       -- rest, sawDigit
+    | [], _, d => ([], d)
+    | c :: r, dot, d =>
+      if isDigit c then mant r dot true
+      else if c = 95 then mant r dot d
+      else if c = 46 ∧ !dot then mant r true d
+      else (c :: r, d)
+  let (rest, d) := mant body false false
+  if !d then false else
+  match rest with
+  | [] => true
+  | e :: r =>
+    if e = 101 ∨ e = 69 then
+      let r := match r with | 43 :: r' => r' | 45 :: r' => r' | r' => r'
+      !r.isEmpty && r.any isDigit && r.all (fun c => isDigit c || c = 95)
+    else false
 
 /-- ParseFloat on the integer-valued fragment: some (some x) parsed, some none = certainly an
-    error, none = outside the model -/
+    error (a byte that no float syntax allows in that position class), none = outside the model
+    (hex floats, inf/nan spellings, fractions, exponents, underscores, very long digit strings) -/
 def parseFloatText (b : Bytes) : Option (Option F64) :=
   if isIntText b then (match parseInt64 b with
     | some n => (F64.ofInt? n).map some
     | none => none)
   else if b.isEmpty then some none
-  else if b.any (fun c => !floatish c) then some none
-  else none
+  else
+    let body := match b with | 43 :: r => r | 45 :: r => r | r => r
+    match body with
+    | [] => some none
+    | c :: _ =>
+      if c = 105 ∨ c = 73 ∨ c = 110 ∨ c = 78 then none                    -- i I n N : inf / nan spellings
+      else if body.take 2 = [48, 120] ∨ body.take 2 = [48, 88] then none  -- 0x / 0X : hex float
+      else if decimalFloatSyntax body then none                            -- well-formed, but not an integer the model handles
+      else some none
 
 /-- FormatFloat(x,'f',-1,64) for integer-valued doubles -/
 def formatFloat (x : F64) : Option Bytes :=
@@ -780,6 +813,7 @@ def srandmember (s : MState) (now : Int) (key : Bytes) (count : Int) (choice : L
   match asSet s key with
   | none => (s, .panic)
   | some st =>
+    if count < 0 ∧ st.isEmpty then (s, .panic) else      -- rand.Intn(0) on an existing-but-empty set
     let valid :=
       if count = 0 then choice.isEmpty
       else if count > 0 then choice.all (DsSet.mem st) && distinct choice && choice.length = min count.toNat st.length
@@ -1023,21 +1057,30 @@ def zinterCore (s : MState) (now : Int) (keys : List Bytes) (weights : List F64)
         match DsZSet.forEachByRank z 0 (-1) false with
         | none => (s, none)
         | some items =>
-          -- membership tests against every other operand (reads bump counters; a missing or
-          -- wrong-typed other operand panics on the type assertion)
-          let others := (keys.zipIdx.filter fun (_, j) => j ≠ i).map (·.1)
-          let bad := !items.isEmpty && keys.any fun ok' =>
-            match getMeta s ok' with
-            | some m => m.expired now || (match m.value with | some (.zset _) => false | some _ => true | none => false)
-            | none => true
-          if bad then (s, none) else
-          let inAll (m : Bytes) : Bool := others.all fun o =>
-            match asZSet (readKey s now o).1 o with
-            | some oz => DsZSet.zExists oz m
-            | none => false
-          let s := items.foldl (fun s _ => keys.foldl (fun s o => (readKey s now o).1) s) s
-          let acc := items.foldl (fun a it => if inAll it.2 then a.bind fun a => aggregate agg (weightAt weights i) a it else a) acc
-          go rest s acc
+          -- for every member: walk all operands in order (each `tx.readKey` bumps the counter, also
+          -- for the operand itself), skip j = i, stop at the first operand lacking the member; an
+          -- operand that is missing or of another type panics on the type assertion when reached
+          let rec inner (js : List (Bytes × Nat)) (s : MState) (m : Bytes) : MState × Option Bool :=
+            match js with
+            | [] => (s, some true)
+            | (o, j) :: more =>
+              let (s, _) := readKey s now o
+              if j = i then inner more s m else
+              match asZSet s o with
+              | none => (s, none)
+              | some oz => if DsZSet.zExists oz m then inner more s m else (s, some false)
+          let rec outer (its : List Item) (s : MState) (acc : Option (AList F64)) : MState × Option (Option (AList F64)) :=
+            match its with
+            | [] => (s, some acc)
+            | it :: more =>
+              match inner keys.zipIdx s it.2 with
+              | (s, none) => (s, none)
+              | (s, some found) =>
+                let acc := if found then acc.bind fun a => aggregate agg (weightAt weights i) a it else acc
+                outer more s acc
+          match outer items s acc with
+          | (s, none) => (s, none)
+          | (s, some acc) => go rest s acc
   let (s, r) := go keys.zipIdx s (some [])
   (s, r.map fun o => o.map fun m => m.map fun (k, v) => (v, k))
 
